@@ -93,15 +93,25 @@ class NpShim:
             return object
         return np.float64
 
-    def allclose(self, a, b, *args, **k):
+    def allclose(self, a, b, rtol=1e-05, atol=1e-08, equal_nan=False):
         if _has_sym(a) or _has_sym(b):
             USED.add("np.allclose")
             if self._allclose == "false":
                 return False
-            c = sym.ctx()
-            c._nd = getattr(c, "_nd", 0) + 1
-            return c.branch(z3.Bool(f"nondet_allclose_{c._nd}"))
-        return np.allclose(np.asarray(a, dtype=float), np.asarray(b, dtype=float), *args, **k)
+            if self._allclose == "nondet":
+                # only guards a logging.warning in flodym: both outcomes are explored, values unconstrained
+                c = sym.ctx()
+                c._nd = getattr(c, "_nd", 0) + 1
+                return c.branch(z3.Bool(f"nondet_allclose_{c._nd}"))
+            # "model": numpy's documented definition: all(|a - b| <= atol + rtol * |b|), as one merged term
+            A = np.asarray(a, dtype=object)
+            B = np.asarray(b, dtype=object)
+            conj = []
+            for x, y in np.broadcast(A, B):
+                x, y = sym._sr(x), sym._sr(y)
+                conj.append((abs(x - y) <= SymReal.lit(Fraction(atol)) + SymReal.lit(Fraction(rtol)) * abs(y)).t)
+            return sym.ctx().branch(z3.And(*conj)) if conj else True
+        return np.allclose(np.asarray(a, dtype=float), np.asarray(b, dtype=float), rtol=rtol, atol=atol, equal_nan=equal_nan)
 
     def isnan(self, a):
         a = _wrapin(a) if isinstance(a, np.ndarray) else a
@@ -209,11 +219,14 @@ class ScipyShim:
 
 
 def solve_triangular_stub(a, b, trans=0, lower=False, unit_diagonal=False, overwrite_b=False, check_finite=True):
-    """contract stub for scipy.linalg.solve_triangular: fresh x with tri(a) x = b assumed."""
+    """contract stub for scipy.linalg.solve_triangular: x with tri(a) x = b (a function of its inputs).
+    overwrite_b=True: the documented contract lets the routine destroy b; modelled by writing
+    unconstrained fresh values into b (what LAPACK does with a contiguous b is one instance)."""
     if not (_has_sym(a) or _has_sym(b)):
         from scipy.linalg import solve_triangular as real
         return real(np.asarray(a, dtype=float), np.asarray(b, dtype=float), trans=trans, lower=lower)
     USED.add("scipy.linalg.solve_triangular")
+    b_in = b
     a = np.asarray(a, dtype=object)
     b = np.asarray(b, dtype=object)
     if a.ndim != 2 or a.shape[0] != a.shape[1]:
@@ -221,14 +234,32 @@ def solve_triangular_stub(a, b, trans=0, lower=False, unit_diagonal=False, overw
     n = a.shape[0]
     if b.shape[0] != n:
         raise ValueError(f"shapes of a {a.shape} and b {b.shape} are incompatible")
-    if b.ndim != 1:
-        raise ModelGap("solve_triangular stub only models vector right-hand sides")
+    if b.ndim not in (1, 2):
+        raise ModelGap("solve_triangular stub models vector and matrix right-hand sides only")
     if unit_diagonal:
         raise ModelGap("unit_diagonal not modelled")
+    if b.ndim == 2:
+        cols = [solve_triangular_stub(a, b[:, k].copy(), trans=trans, lower=lower, check_finite=check_finite) for k in range(b.shape[1])]
+        out = np.empty(b.shape, dtype=object)
+        for k, col in enumerate(cols):
+            out[:, k] = col
+        res = out.view(SymArr)
+    else:
+        res = _solve_tri_vec(a, b, trans, lower, n)
+    if overwrite_b and isinstance(b_in, np.ndarray):
+        c = sym.ctx()
+        c._tri_ow = getattr(c, "_tri_ow", 0) + 1
+        junk = np.empty(b_in.shape, dtype=object)
+        junk.flat = [SymReal(z3.Real(f"tri_overwritten{c._tri_ow}_{i}")) for i in range(b_in.size)]
+        b_in[...] = junk
+    return res
+
+
+def _solve_tri_vec(a, b, trans, lower, n):
     c = sym.ctx()
     # solve_triangular is a function of its inputs: the same (triangle, rhs) terms give the same x
-    tr_ = trans in (1, 2, "T", "C")
-    sig = (bool(lower), tr_) + tuple(sym.term(a[i, j]).hash() for i in range(n) for j in range(n) if ((j <= i) if lower else (j >= i))) + tuple(sym.term(v).hash() for v in b)
+    tr = trans in (1, 2, "T", "C")
+    sig = (bool(lower), tr) + tuple(sym.term(a[i, j]).hash() for i in range(n) for j in range(n) if ((j <= i) if lower else (j >= i))) + tuple(sym.term(v).hash() for v in b)
     cache = getattr(c, "_tri_cache", None)
     if cache is None:
         cache = c._tri_cache = {}
@@ -239,7 +270,6 @@ def solve_triangular_stub(a, b, trans=0, lower=False, unit_diagonal=False, overw
     c._tri = getattr(c, "_tri", 0) + 1
     xs = [SymReal(z3.Real(f"tri{c._tri}_x{i}")) for i in range(n)]
     cache[sig] = xs
-    tr = trans in (1, 2, "T", "C")
     for i in range(n):
         acc = 0
         rng = range(0, i + 1) if (lower != tr) else range(i, n)
